@@ -101,7 +101,11 @@ def make_case(seed, shard_index, i):
         end = math.floor(n * t)
         if end < 1:
             continue
-        pt.append([f"Scaffold_{len(pt) + 1}", [["F", s[0], 1, end, 1, ["Painted"] if painted else []]]])
+        # orientation '+', or '?' (unknown: legal in AGP, and not a request to reverse anything)
+        strand = 0 if rng.random() < 0.15 else 1
+        if strand == 0:
+            labels.add("null:unknown-orientation-line")
+        pt.append([f"Scaffold_{len(pt) + 1}", [["F", s[0], 1, end, strand, ["Painted"] if painted else []]]])
         pieces.append({"s": s[0], "start": 1, "end": end, "L": L})
     labels.add("null:painted" if painted else "null:unpainted")
     if prefix != "SUPER_":
@@ -298,6 +302,7 @@ def gates(c, tier):
         "cli-null-ok:painted": 300,
         "cli-null-ok:unpainted": 300,
         "label:null:bait-undershoots": 500,
+        "label:null:unknown-orientation-line": 1000,
         "label:null:bait-overshoots": 500,
         "label:null:subtexel-absent": 100,
         "label:null:subtexel-present": 100,
